@@ -94,6 +94,7 @@ func (g *gen) transfersTable() []wop {
 		{24, g.opTransfer}, {24, g.opNFTTransfer}, {30, g.opMulti},
 		{14, g.lateNetwork}, {3, g.opPayableFlip}, {2, g.opAlias},
 		{2, g.opMint}, {2, g.opCreate}, {1, g.opAddQty}, {3, g.opSysTransfer}, {3, g.opPayableMatrix}, {2, g.opThinSecondLeg}, {2, g.opHandOverFresh}, {3, g.opUnfrozenDrain},
+		{3, g.opRepeatOverdraw},
 	}
 }
 
@@ -101,6 +102,7 @@ func (g *gen) runTransfers() {
 	g.setupWorld(worldOpts{activation: uint32(g.r.Intn(3)), epoch: 2 + int64(g.r.Intn(3))})
 	g.standardState()
 	g.metaNodeScenario()
+	g.opRepeatOverdraw()
 	g.loop(g.transfersTable())
 }
 
@@ -182,8 +184,9 @@ func (g *gen) runSupply() {
 		return true
 	}
 	opJump()
+	g.opRepeatOverdraw()
 	g.loop([]wop{
-		{1, opJump}, {16, g.opMint}, {14, g.opLocalBurn}, {12, g.opESDTBurn}, {12, g.opCreate}, {14, g.opAddQty}, {14, g.opNFTBurn},
+		{3, g.opRepeatOverdraw}, {1, opJump}, {16, g.opMint}, {14, g.opLocalBurn}, {12, g.opESDTBurn}, {12, g.opCreate}, {14, g.opAddQty}, {14, g.opNFTBurn},
 		{5, g.opFreezeThenWipe}, {4, g.opTransfer}, {4, g.opNFTTransfer}, {3, g.opMulti}, {4, g.lateNetwork}, {2, g.opAlias}, {3, g.opUnfrozenDrain},
 	})
 }
@@ -1250,7 +1253,9 @@ func (g *gen) runAdversarial() {
 		g.do(g.sys(oracle.FnSetRole, g.pick(g.accounts), tok, []byte{}))
 		return true
 	}
-	g.loop([]wop{{54, g.opAdversarial}, {18, g.opSemiValid}, {4, opRoles}, {6, g.opAlias}, {3, g.opAliasTokens}, {4, g.opMulti}, {3, g.opNFTTransfer}, {3, g.opTransfer}, {8, g.lateNetwork}, {3, g.opThinSecondLeg}, {3, opEmptyElements}})
+	g.opWideNonceOnFungible()
+	opEmptyElements()
+	g.loop([]wop{{3, g.opWideNonceOnFungible}, {54, g.opAdversarial}, {18, g.opSemiValid}, {4, opRoles}, {6, g.opAlias}, {3, g.opAliasTokens}, {4, g.opMulti}, {3, g.opNFTTransfer}, {3, g.opTransfer}, {8, g.lateNetwork}, {3, g.opThinSecondLeg}, {3, opEmptyElements}})
 }
 
 // ---------------------------------------------------------------------------
